@@ -642,6 +642,43 @@ def stage_aborted_call(ctx, stats):
     stats['aborted_call_sessions'] = n
 
 
+def stage_growing_file(ctx, stats):
+    """C07 on a descriptor that reports the end of the stream at its momentary end and delivers more later (a file that is still being
+    written): a character cut at such a point is completed by what follows, like at any other read boundary"""
+    from pexpect import fdpexpect
+    n = 0
+    for enc, errors, text in (('utf-8', 'strict', 'price: \u20ac5 \U0001f600!'), ('utf-8', 'replace', 'caf\u00e9 \u2500'), ('utf-16', 'strict', 'h\u00e9\u20ac')):
+        raw = text.encode(enc)
+        for cut in [c for c in range(1, len(raw)) if c % 3 == 1][:6]:
+            path = os.path.join(ctx.tmp, 'growing_%s_%d' % (enc, cut))
+            f = open(path, 'wb', buffering=0)
+            f.write(raw[:cut])
+            fd = os.open(path, os.O_RDONLY)
+            p = fdpexpect.fdspawn(fd, encoding=enc, codec_errors=errors, timeout=2)
+            got, msg = '', None
+            try:
+                p.expect(pexpect.EOF); got += p.before
+                f.write(raw[cut:])
+                p.expect(pexpect.EOF); got += p.before
+            except Exception as e:     # noqa
+                msg = 'raised %s: %s' % (type(e).__name__, str(e)[:80])
+            finally:
+                f.close()
+                try:
+                    p.close()
+                except Exception:
+                    pass
+            n += 1
+            if msg is None and got != text:
+                msg = 'delivered %r, the file holds %r' % (got, text)
+            if msg:
+                common.report(ctx, 'c07/growing-file/%s' % enc, 'fdspawn on a file that grows (%s/%s), first part ends after byte %d: %s' % (enc, errors, cut, msg),
+                              dict(encoding=enc, errors=errors, cut=cut))
+                stats['growing_file_cases'] = n
+                return
+    stats['growing_file_cases'] = n
+
+
 def stage_big_sends(ctx, stats):
     """C08: payloads larger than the kernel buffers with a peer that starts reading late, on blocking and timeout-mode descriptors:
     send() must return the number of bytes of its argument and the peer must receive exactly the arguments, concatenated"""
@@ -935,6 +972,7 @@ def run(ctx):
         stage_async(ctx, stats)
         stage_handover(ctx, stats)
         stage_aborted_call(ctx, stats)
+        stage_growing_file(ctx, stats)
     if prop == 'C11':
         stage_interact_logging(ctx, stats)
         stage_handover(ctx, stats)
